@@ -11,6 +11,15 @@ KEEP = ('announced-states', 'check-result')
 
 def run(chk, keep=KEEP, pid='C04'):
     Ds = tailmon.monitor_tail(chk, SHAPES[chk.tier])
+    if pid == 'C04':
+        import runmon
+        runmon.monitor_run(chk, chk.tier)
+        callers.monitor_attempt_loop(chk, chk.tier)
+        keep = tuple(keep) + ('idle-and-waiting-for-reboot', 'retry-iff-transient')
+    else:
+        import sutmon
+        sutmon.monitor_report(chk, 2)
+        keep = tuple(keep) + ('report-once',)
     chk.obligations = [o for o in chk.obligations if o.name in keep]
     chk.bounds.update({'(apps in app set, apps in response, installer results)': [list(s) for s in SHAPES[chk.tier]],
                        'install progress notifications': 0, 'attempts': 'first attempt succeeds (the attempt loop is C06)'})
